@@ -772,7 +772,9 @@ def runLive12 (kv : List (String × String)) : IO Res := do
       continue
     let inp : Bytes := raw.map (·.getD 0)
     let some got := lc.img.bytes t.stackRva t.stackSize | return .propfail "stack bytes outside the image" tags
-    if sp < t.stackStart then continue
+    -- (a stack pointer below the captured region — in a guard page or a gap in front of the stack — has offset 0:
+    -- every captured word is at or above it)
+    if sp < t.stackStart then tags := "sp.below" :: tags
     match sanitize ms inp sp (sp - t.stackStart) with
     | .ok want =>
       if got != want then
